@@ -85,7 +85,7 @@ theorem search_post (restart : Bool) (sibs : List Nat) :
 
 /-- the result of a terminating search is 254 or a valid address no sibling uses, and never the old address -/
 theorem SearchPost.valid {sibs : List Nat} {src e : Nat} {r : SearchRes} (p : SearchPost sibs src e r)
-    (hs : src ≤ 251) (he : e ≤ 251) :
+    (hs : src ≤ 251) (_he : e ≤ 251) :
     (r.source = 254 ∨ (r.source ≤ 251 ∧ sibs.contains r.source = false)) ∧ r.source ≠ src := by
   rcases p.result with ⟨h, _⟩ | ⟨k, h1, h2, hr, hn, _⟩
   · exact ⟨Or.inl h, by omega⟩
